@@ -454,6 +454,34 @@ def g_round(ctx, rng, i):
     _rd(ctx, abs(s.radius - r) <= 1e-9 * max(1, r), [c3, r], f"Sphere.radius = {s.radius} vs {r}")
     _rd(ctx, abs(s.volume - 4 / 3 * math.pi * r ** 3) <= 1e-9 * max(1, r ** 3), [c3, r], f"Sphere.volume = {s.volume}, 4/3 pi r^3 = {4 / 3 * math.pi * r ** 3}")
     _rd(ctx, abs(s.area - 4 * math.pi * r ** 2) <= 1e-9 * max(1, r ** 2), [c3, r], f"Sphere.area = {s.area}, 4 pi r^2 = {4 * math.pi * r ** 2}")
+    # history: a centre in another homogeneous scale is used, moved in place (p[k] = x), and used again: the second quadric is that of the moved point
+    wv = float(gen.pick(rng, [2, -1, 0.5, 4]))
+    for cc, ctor, nm in ((c2, g.Circle, "Circle"), (c3, g.Sphere, "Sphere")):
+        try:
+            pt = g.Point(np.append(cc * wv, wv))
+            first = ctor(pt, r)
+            pt + pt
+            k_ = int(rng.integers(0, len(cc)))
+            moved = cc.copy()
+            moved[k_] += float(gen.pick(rng, [1, -2, 0.5, 3]))
+            pt[k_] = moved[k_] * wv
+            second = ctor(pt, r)
+            okm = np.allclose(_cart(second.center), moved, atol=1e-6) and abs(second.radius - r) <= 1e-9 * max(1, r) and np.allclose(_cart(first.center), cc, atol=1e-6)
+            whatm = f"{nm} of a centre that was used, moved in place from {cc} to {moved} and used again has centre {_cart(second.center)} (the first one {_cart(first.center)})"
+        except Exception as e:
+            okm, whatm = False, f"{nm} of a centre edited in place raised {type(e).__name__}: {e}"
+        _rd(ctx, bool(okm), [cc, r, wv, "moved"], whatm)
+    if i % 2 == 0:
+        try:
+            P5 = [g.Point(np.append(x * wv, wv)) for x in (np.array([0., 0.]), np.array([2., 0.]), np.array([0., 3.]), np.array([2., 4.]), np.array([-1., 1.]))]
+            g.Conic.from_points(*P5)
+            P5[4][0] = -3.0 * wv
+            con = g.Conic.from_points(*P5)
+            okm = bool(np.all([abs(np.asarray(x.array, float) @ np.asarray(con.array, float) @ np.asarray(x.array, float)) <= 1e-8 * np.max(np.abs(con.array)) * max(1.0, float(np.max(np.abs(x.array))) ** 2) for x in P5]))
+            whatm = "Conic.from_points with a point that was used, moved in place and used again does not pass through the moved point"
+        except Exception as e:
+            okm, whatm = False, f"Conic.from_points after an in-place edit raised {type(e).__name__}: {e}"
+        _rd(ctx, bool(okm), [wv, "from_points moved"], whatm)
     # the constructed quadric stays the quadric of its data after it has been queried (tangency / duality / polarity queries)
     for q_, cc, nm, stage in ((circ, c2, "Circle", 0), (s, c3, "Sphere", 0), (circ, c2, "Circle", 1), (s, c3, "Sphere", 1)):
         try:
